@@ -396,6 +396,40 @@ def nontrivial(case):
     return n >= 4 and len(ops) >= 3
 
 
+def wide_own_stream(rep, rng, n):
+    """float32 Grid/CVT archives fed float64 measures whose float32 rounding lies in ANOTHER cell (found by bisection across a cell
+    border): the archive stores the rounded measures, and every stored elite must be found by querying its own (stored) measures."""
+    for _ in range(n):
+        spec = au.gen_spec(rng, kinds=("grid", "cvt", "cvt_brute"), cma=rng.random() < 0.3, dtypes=("f",), max_cells=24)
+        spec["extras"] = []
+        arch = au.make_archive(spec)
+        m = au.cast_sensitive_measures(arch, spec, rng)
+        if m is None:
+            continue
+        single = rng.random() < 0.5
+        sol = np.arange(1, spec["sol_dim"] + 1, dtype=np.float64)
+        if single:
+            arch.add_single(sol, 1.0, m)
+        else:
+            other = np.array([rng.uniform(lo, hi) for lo, hi in spec["ranges"]])
+            arch.add(np.stack([sol, sol + 1]), np.array([1.0, 0.5]), np.stack([m, other]))
+        rep.count("wide_own_cases")
+        d = arch.data()
+        for k in range(len(d["index"])):
+            own = np.array(d["measures"][k], copy=True)
+            occ, e = arch.retrieve_single(own)
+            if not occ or not np.array_equal(e["solution"], d["solution"][k]):
+                rep.violation("a stored elite is not found by querying its own measures: %s archive (float32), %s with float64 measures %s stores measures %s "
+                              "in cell %d, but retrieve_single(%s) looks in cell %d and returns occupied=%s" % (
+                                  spec["kind"], "add_single" if single else "add", m.tolist(), own.tolist(), int(d["index"][k]), own.tolist(),
+                                  int(arch.index_of_single(own)), bool(occ)),
+                              {"kind": "property", "broken": "C07_own_measures (every stored elite is found by querying its own measures)",
+                               "case": {"spec": spec, "entry": "add_single" if single else "add", "measures_float64_hex": [float(x).hex() for x in m],
+                                        "stored_measures": own.tolist(), "stored_cell": int(d["index"][k]), "queried_cell": int(arch.index_of_single(own))}},
+                              True, {"kind": "stored-measures-map-elsewhere"})
+                return
+
+
 def check(rep, tier, seed, driver):
     rng = random.Random(seed)
     n = 160 if tier == "quick" else 3000
@@ -465,3 +499,4 @@ def check(rep, tier, seed, driver):
                      what="retrieve / retrieve_single / sample_elites", broken="Model/Archive.v + Model/Sliding.v vs ribs/archives/_archive_base.py (retrieve, sample_elites)",
                      theorems=["C07_retrieve_spec", "C07_stored_elite_retrievable", "C07_sliding_retrievable", "C07_sample_current", "C07_sample_reaches"])
     run_cases_spec(cases)
+    wide_own_stream(rep, rng, 40 if tier == "quick" else 600)
